@@ -141,7 +141,7 @@ ADiagOp == /\ "Diagonalize" \in Ops /\ L >= 1 /\ Rank(L) >= 1 /\ Rank(L) <= 2
 \* Inflate(func, dofmap, length): func.shape ends with dofmap.shape
 AInflateOp == /\ "Inflate" \in Ops
               /\ \E ij \in Pairs : \E len \in {2, 3} :
-                    /\ Nd(ij[1]).dt \in {"f", "i"} /\ Nd(ij[2]).dt = "i" /\ Nd(ij[2]).ix > 0 /\ Nd(ij[2]).ix <= len
+                    /\ Nd(ij[1]).dt \in {"f", "i", "b"} /\ Nd(ij[2]).dt = "i" /\ Nd(ij[2]).ix > 0 /\ Nd(ij[2]).ix <= len
                     /\ Rank(ij[2]) <= Rank(ij[1])
                     /\ SubSeq(Nd(ij[1]).sh, Rank(ij[1]) - Rank(ij[2]) + 1, Rank(ij[1])) = Nd(ij[2]).sh
                     /\ Push(Node("Inflate", <<ij[1], ij[2]>>, <<len>>,
